@@ -326,6 +326,8 @@ def case_strategy(draw):
                                 "comps": [{"name": "u", "cls": k, "prefixes": [], "dims": [], "value": None,
                                            "mods": [{"path": ["cg"], "attr": "value", "expr": ["real", "1.62"]}]}]})
         gadget = ["KR", "KU"]
+    if draw(st.integers(0, 3)) == 0:
+        draw(L.add_shadow(data))  # a nested class named like a class of another scope (lookups must not be confused by earlier requests)
     lib = L.Lib(data)
     models = lib.models()
     memo = {}
@@ -394,6 +396,8 @@ def history_labels(lib, steps):
     if any(c["kind"] == "type" for c in classes):
         labels.append("type_alias")
     strong = {r for r in rels if r.startswith("use") or r == "nested"}
+    if any("name" in c for c in lib.data["classes"]):
+        labels.append("shadowed_class_name")
     return labels, bool(repeated or strong)
 
 
